@@ -294,12 +294,14 @@ def tigerxml(tree, stream, **params):
         for field in ['lemma', 'morph']:
             if terminal.data[field] is None:
                 terminal.data[field] = "--"
+        # quote for output only, the tree keeps its values
+        quoted = {}
         for field in ['word', 'lemma', 'label', 'morph']:
-            terminal.data[field] = quoteattr(terminal.data[field])
-        stream.write(u"%s=%s " % ('word', terminal.data['word']))
-        stream.write(u"%s=%s " % ('lemma', terminal.data['lemma']))
-        stream.write(u"%s=%s " % ('pos', terminal.data['label']))
-        stream.write(u"%s=%s " % ('morph', terminal.data['morph']))
+            quoted[field] = quoteattr(terminal.data[field])
+        stream.write(u"%s=%s " % ('word', quoted['word']))
+        stream.write(u"%s=%s " % ('lemma', quoted['lemma']))
+        stream.write(u"%s=%s " % ('pos', quoted['label']))
+        stream.write(u"%s=%s " % ('morph', quoted['morph']))
         stream.write(u"/>\n")
     stream.write(u"  </terminals>\n")
     stream.write(u"  <nonterminals>\n")
